@@ -293,9 +293,6 @@ def harness(prog, dag, cls, builders, sites, K, m_after):
         for kind in ("interp", "gen"):
             bad = run_backend(ex, kind, prog, dag, cls, builders, sites, K, m_after, k, prove=prove)
             if bad is not None:
-                if ex.path_tainted:
-                    ex.stats.undecided += 1
-                    return None
                 m = state["model"] or ex.path_model()
                 from vf.checks import c01
                 return {"prog": prog, "K": K, "m_after": m_after, "problem": bad,
